@@ -133,7 +133,7 @@ class Ctx:
                 sums += open(p).read()
         open(os.path.join(hdir, "go.sum"), "w").write(sums)
         drv = os.path.join(self.scratch, "drv")
-        cover = ["-cover", "-coverpkg=github.com/TeaEntityLab/fpGo/v2/..."] if os.environ.get("VERIF_COVER") else []
+        cover = ["-cover", "-coverpkg=github.com/TeaEntityLab/fpGo/v2/...,verifharness/..."] if os.environ.get("VERIF_COVER") else []
         p = subprocess.run(["go", "build", "-tags", "verif"] + cover + ["-o", drv, "./cmd/drv"], cwd=hdir, env=env,
                            stdout=subprocess.PIPE, stderr=subprocess.STDOUT, text=True, timeout=600)
         if p.returncode != 0:
